@@ -341,7 +341,7 @@ def minimise(scn, oracle):
 
 def minimise_corrupt(scn, oracle, judge, same_sig=True):
     """fewer faults, then (message scenarios) raw bytes with chunks removed / zeroed"""
-    dl = shrink.Deadline(90)
+    dl = shrink.Deadline(150)
     first = [f for f in judge(scn) if f["oracle"] == oracle]
     if not first:
         return scn
@@ -355,6 +355,9 @@ def minimise_corrupt(scn, oracle, judge, same_sig=True):
 
     cur = dict(scn)
     if cur["kind"] == "msg_corrupt":
+        small = _minimise_by_replanning(cur, ok, dl)
+        if small is not None:
+            return small
         if cur.get("faults"):
             cur["faults"] = shrink.ddmin(cur["faults"], lambda fl: ok(dict(cur, faults=fl)), dl)
         # fewer message keys while the fault offsets still hit (offsets shift, so only try, never insist)
@@ -394,6 +397,54 @@ def minimise_corrupt(scn, oracle, judge, same_sig=True):
         keep = shrink.ddmin(list(range(len(b))), lambda idx: ok(dict(cur, bytes=hexspec(bytes(b[i] for i in idx)))), dl)
         return dict(cur, bytes=hexspec(bytes(b[i] for i in keep)))
     return cur
+
+
+def _minimise_by_replanning(scn, ok, dl):
+    """fewer message keys, re-running the fault planners on every candidate message (fault offsets
+    move with the message, so the planned fault families are searched again for one that still
+    fails the same way).  Returns None when the original fault is not one the planners regenerate."""
+    import random
+
+    def find(base):
+        try:
+            clean, rd, cfg = decfam.clean_and_reading(base)
+        except Exception:
+            return None
+        if rd.cls != "ACCEPT":
+            return None
+        for fl in decfam.plan_message_faults(base, clean, rd, "quick", random.Random(0), directed=True):
+            if dl.over():
+                return None
+            if fl and ok(dict(base, faults=fl)):
+                return fl
+        return None
+
+    base = dict(scn, faults=[])
+    if find(base) is None:
+        return None
+    msg = base["message"]
+    keys = [k for k in msg if k != "MTI"]
+
+    def with_keys(ks):
+        return dict(base, message={k: v for k, v in msg.items() if k == "MTI" or k in ks})
+
+    keep = shrink.ddmin(keys, lambda ks: find(with_keys(ks)) is not None, dl)
+    base = with_keys(keep)
+    # shorter text values
+    for k in list(base["message"]):
+        v = base["message"][k]
+        if k != "MTI" and isinstance(v, str) and len(v) > 12 and not dl.over():
+            cand = dict(base, message=dict(base["message"], **{k: v[:10]}))
+            if find(cand) is not None:
+                base = cand
+    for alt in ({"config": "packaged"}, {"hex_bitmap": False}, {"encoding": "latin_1"}):
+        cand = dict(base, **alt)
+        if cand != base and not dl.over() and find(cand) is not None:
+            base = cand
+    fl = find(base)
+    if fl is None:
+        return None
+    return dict(base, faults=fl)
 
 
 def finalize(total, tier):
